@@ -506,6 +506,8 @@ Quiescent ==
   /\ Imp("C01", (~stopped /\ ~sendBad) => ~\E u \in 1..Len(units) : Answerable(u) \/ units[u].st = "direct")
   \* C07: a running call whose id was named by CancelRequest has seen the cancellation
   /\ Imp("C07", \A t \in running : t \in cancelOK => t \in hcanc)
+  \* C08: once Recv has failed (end of stream or any error) the server has stopped
+  /\ Imp("C08", rdDone => stopped)
   \* C08: every call in flight at the stop has seen its context cancelled
   /\ Imp("C08", stopped => \A t \in running : mem[t].id # "" => t \in hcanc)
   \* C08: the server has fully stopped => WaitStatus has returned
